@@ -29,6 +29,9 @@ def run(rep, tier, seed):
         g = ev.get("g", {})
         if g.get("k") == "fpbook":
             sig = "C07 book nel=%s %s %s" % (g.get("nel"), "+".join(c["sec"]["k"] for c in g["calls"]), why[:160])
+        elif g.get("k") == "fpbend":
+            sig = "C07 bend npts=%s w=%s o=%s r=%s ends=%s %s" % (len(g.get("spine", [])), g.get("w"), g.get("o"),
+                                                             g.get("r"), g.get("ends"), why[:160])
         else:
             el = (g.get("els") or [{}])[0]
             hw = el.get("hw", [])
@@ -41,4 +44,7 @@ def run(rep, tier, seed):
                            "one width/offset entry per spine point; (b) 6 Manhattan spines x 4 width "
                            "patterns (constant, tapering, alternating) x offsets x 4 joins x 4 end "
                            "caps, 2 elements each: 1517 exact sample points per element judged by "
-                           "SureIn / SureOut; distinct_nontrivial = cases")
+                           "SureIn / SureOut; (c) circular bends: 5 spines (one corner, two corners sharing a "
+                           "short leg, 45 degrees, leg too short, three turns) x 2 widths x 3 offsets x 2 "
+                           "radii x 2 end caps, outline measured against every admissible set of bent "
+                           "corners; distinct_nontrivial = cases")
